@@ -111,7 +111,7 @@ func NewDisk() *Disk {
 
 // WallNow replaces time.Now in internal/fs (the modification-key safety gap).
 func WallNow() time.Time {
-	if s := active; s != nil && s.cfg.Disk != nil {
+	if s := act(); s != nil && s.cfg.Disk != nil {
 		return s.cfg.Disk.Now()
 	}
 	return time.Now()
@@ -120,7 +120,7 @@ func WallNow() time.Time {
 // Now is the disk's wall clock: the bubble clock plus the disk's forward offset.
 func (d *Disk) Now() time.Time {
 	var t time.Time
-	if active != nil {
+	if act() != nil {
 		t = time.Now()
 	} else {
 		t = simEpoch
@@ -342,8 +342,9 @@ func (d *Disk) record(kind, p string, err error, data []byte, fault string) {
 	d.Log = append(d.Log, op)
 }
 
+//go:norace
 func taskIDNoRace() int {
-	if active == nil {
+	if act() == nil {
 		return -1
 	}
 	return TaskID()
@@ -499,8 +500,9 @@ func Corrupt(t *Tape, data []byte) ([]byte, string) {
 
 func (d *Disk) simDisk() bool { return d != nil }
 
+//go:norace
 func cur() *Disk {
-	if s := active; s != nil {
+	if s := act(); s != nil {
 		return s.cfg.Disk
 	}
 	return nil
